@@ -9,6 +9,7 @@ func Gen(t *rapid.T) *Case {
 	}
 	c.CancelLast = rapid.IntRange(0, 2).Draw(t, "cancelLast") == 0
 	c.Obs = rapid.IntRange(0, 2).Draw(t, "obs") == 0
+	c.Via = rapid.SampledFrom([]string{"", "", "", "any", "iface"}).Draw(t, "via")
 	c.Hooks = rapid.IntRange(0, 3).Draw(t, "hooks") == 0
 	c.Store = rapid.IntRange(0, 3).Draw(t, "store") == 0
 	n := rapid.IntRange(1, 8).Draw(t, "nh")
